@@ -50,6 +50,12 @@ def qr(x, /, *, mode="reduced") -> QRResult:
             "Consider rechunking so there is only a single column chunk."
         )
 
+    if any(c < x.shape[1] for c in x.chunks[0]):
+        raise ValueError(
+            "qr requires every row chunk to have at least as many rows as the array has columns. "
+            "Consider rechunking so that row chunks (including the last) are larger."
+        )
+
     Q, R, _, _, _ = tsqr(x)
     return QRResult(Q, R)
 
